@@ -2,7 +2,7 @@
 """Sensitivity audit: applies each mutant of mutants/<ID>.json (string replacements in ttconv sources) to a scratch
 copy of /repo's python sources under /tmp, runs `./check <ID>` (quick) against it with VT_REPO, and requires exit 1.
 
-usage: mutation_audit.py [ID ...] [--only NAME] [--tier quick]
+usage: mutation_audit.py [ID ...] [--only NAME] [--tier quick] [--jobs N]   (no ID and no --only: full audit, rewrites mutants/AUDIT.md)
 Mutant spec: {"name":..., "file": "ttconv/x.py", "old": "...", "new": "...", "count": 1, "expect": ["bucket glob", ...]}
 """
 import json, os, shutil, subprocess, sys, tempfile, time
@@ -41,14 +41,18 @@ def main():
     i = args.index("--tier"); tier = args[i + 1]; del args[i:i + 2]
   if "--only" in args:
     i = args.index("--only"); only = args[i + 1]; del args[i:i + 2]
+  if "--jobs" in args:
+    i = args.index("--jobs"); del args[i:i + 2]
   ids = args or sorted(f[:-5] for f in os.listdir(os.path.join(HERE, "mutants")) if f.endswith(".json"))
   bad = 0
   rows = []
-  for pid in ids:
-    for m in json.load(open(os.path.join(HERE, "mutants", pid + ".json"))):
-      if only and m["name"] != only:
-        continue
-      res, dt = run(pid, m, tier)
+  jobs = 1
+  if "--jobs" in sys.argv:
+    jobs = int(sys.argv[sys.argv.index("--jobs") + 1])
+  work = [(pid, m) for pid in ids for m in json.load(open(os.path.join(HERE, "mutants", pid + ".json"))) if not only or m["name"] == only]
+  import concurrent.futures
+  with concurrent.futures.ThreadPoolExecutor(jobs) as ex:
+    for (pid, m), (res, dt) in zip(work, ex.map(lambda w: run(w[0], w[1], tier), work)):
       print("%s %-40s %s [%.0fs]" % (pid, m["name"], res, dt), flush=True)
       rows.append((pid, m["name"], (m.get("edits") or [m])[0]["file"], res, dt))
       bad += not res.startswith("KILLED")
